@@ -778,6 +778,8 @@ pub fn run(cfg: &Cfg) -> Report {
   {
     let bases = [
       "1.0001", "0.9999", "2", "3", "1.5", "7", "0.5", "1.000000001", "12345.678", "-2", "-1.5", "9.99", "1234567890123456789012345678901234", "0.1", "1.1", "99", "1.0000000000000000000000000000000001",
+      // short coefficients whose small powers land in the highest and the lowest decades of the range
+      "2E+3072", "2.5E+3072", "1E+2048", "8E+6144", "9.9E+6144", "1E+6144", "3E+3072", "1E-6144", "1E-6143", "2E-3072", "5E-2048", "4E-6143", "1E+3072", "-3E+2048",
     ];
     let exps: [i64; 22] = [0, 1, 2, 3, 5, 7, 10, 17, 64, 100, 120, 365, 1000, 4000, 4096, 10000, 20000, -1, -2, -3, -10, -100];
     let mut pow_cases: Vec<(D, i64, D)> = vec![];
@@ -787,7 +789,7 @@ pub fn run(cfg: &Cfg) -> Report {
         _ => continue,
       };
       for n in exps {
-        if !thorough && rng.chance(1, 2) {
+        if !thorough && !(b.contains('E') && n.abs() <= 3) && rng.chance(1, 2) {
           continue;
         }
         // the driver raises the coefficient to the power with unbounded naturals: keep that below 40 000 digits
@@ -810,6 +812,7 @@ pub fn run(cfg: &Cfg) -> Report {
     }
     let mut reqs = vec![];
     let mut kept = vec![];
+    let mut not_finite: Vec<(D, i64, D)> = vec![];
     for (a, n, nrep) in &pow_cases {
       let raw = guarded(|| show_quad(&dec_power(&a.quad(), &nrep.quad())));
       match raw {
@@ -817,7 +820,10 @@ pub fn run(cfg: &Cfg) -> Report {
           reqs.push(format!("(c02 judgepow {} {} {})", a.wire(), n, r.wire()));
           kept.push((a.clone(), *n, nrep.clone(), r));
         }
-        Ok(_) => rep.hit("powint:not-finite"),
+        Ok(_) => {
+          rep.hit("powint:not-finite");
+          not_finite.push((a.clone(), *n, nrep.clone()));
+        }
         Err(p) => rep.disagree(Kind::ImplVsSpec, "pow", "dec_power panics", &format!("{} ** {}", a.to_sci_input(), nrep.to_sci_input()), &p, "a number"),
       }
     }
@@ -836,6 +842,21 @@ pub fn run(cfg: &Cfg) -> Report {
         );
       } else if ans.contains("na") {
         rep.hit("powint:not-judged");
+      }
+    }
+    // a power that is not a finite number although the exact power lies inside the range of normal numbers
+    let rreqs: Vec<String> = not_finite.iter().map(|(a, n, _)| format!("(c02 powrange {} {})", a.wire(), n)).collect();
+    let ranswers = model.ask_batch(&rreqs);
+    for ((a, _n, nrep), ans) in not_finite.iter().zip(ranswers.iter()) {
+      if ans.contains("true") {
+        rep.disagree(
+          Kind::ImplVsSpec,
+          "pow",
+          "an integer power inside the range of decimal128 is not a finite number",
+          &format!("{} ** {}", a.to_sci_input(), nrep.to_sci_input()),
+          "not a finite number (null at the FEEL level)",
+          "within two units in the 34th digit of the exact power",
+        );
       }
     }
   }
@@ -940,6 +961,41 @@ pub fn run(cfg: &Cfg) -> Report {
         rep.disagree(Kind::ImplVsModel, *f, "driver-error", req, "", ans);
       }
     }
+  }
+
+  // ---------------------------------------------------------------- square roots in bulk: a root lands next to a
+  // rounding midpoint of the 34th digit for about one argument in ten thousand, and only there can the last
+  // correction step of the algorithm matter
+  {
+    let n_sqrt = if thorough { 2_000_000 } else { 80_000 };
+    let mut reqs = vec![];
+    let mut kept: Vec<(D, D)> = vec![];
+    for _ in 0..n_sqrt {
+      let len = if rng.chance(3, 4) { 34 } else { 1 + rng.below(34) as usize };
+      let a = D::new(false, &digits(&mut rng, len), rng.range(-40, 40) as i32);
+      match guarded(|| show_quad(&dec_square_root(&a.quad()))) {
+        Ok(Some(DecV::Fin(r))) => {
+          reqs.push(format!("(c02 judge sqrt {} {})", a.wire(), r.wire()));
+          kept.push((a, r));
+        }
+        Ok(_) => rep.hit("sqrt-bulk:not-finite"),
+        Err(p) => rep.disagree(Kind::ImplVsSpec, "sqrt", "dec_square_root panics", &a.to_sci_input(), &p, "a number"),
+      }
+    }
+    let (answers, n_req) = ask_parallel(&cfg.driver, &reqs);
+    model.requests += n_req;
+    let mut judged = 0u64;
+    for (((a, r), req), ans) in kept.iter().zip(reqs.iter()).zip(answers.iter()) {
+      if ans.contains("false") {
+        rep.case(req, true);
+        rep.disagree(Kind::ImplVsSpec, "sqrt", "sqrt does not return the specified (correctly rounded) result", &format!("sqrt({})", a.to_sci_input()), &r.to_sci_input(), "the correctly rounded root");
+      } else if ans.contains("true") {
+        judged += 1;
+      }
+    }
+    // counted once (the cases are uniform): keeps the report small
+    rep.case("sqrt-bulk", true);
+    rep.extra.insert("sqrt_bulk_judged".into(), json!(judged));
   }
 
   // ---------------------------------------------------------------- comparison
